@@ -128,3 +128,18 @@ Inductive finite (h : heap) : value -> Prop :=
                 forall v, In v (n_fields (get h n)) -> finite h v) ->
                finite h (VRef n).
 
+
+(* the literal test of the unchanged tree, `if self.task and not self.loaded`: the truth value of the task
+   object is tested, not `is not None`.  A task whose class defines __len__/__bool__ and that evaluates to
+   False is then not seen as a task: the walk goes on into the parameters of the node that carries the mark.
+   `falsy t`: the object t evaluates to False.  The literal walk is the walk on the heap in which those
+   marks are erased. *)
+Definition blind_node (falsy : nat -> bool) (nd : node) : node :=
+  match n_task nd with
+  | Some t => if falsy t
+              then {| n_fields := n_fields nd; n_pre := n_pre nd; n_init := n_init nd; n_task := None;
+                      n_jobof := n_jobof nd; n_loaded := n_loaded nd; n_sub := n_sub nd |}
+              else nd
+  | None => nd
+  end.
+Definition blind (falsy : nat -> bool) (h : heap) : heap := map (blind_node falsy) h.
